@@ -157,7 +157,11 @@ pub fn select_connection(
     // ranking. Otherwise we fall back to the full pool — better to send
     // on a gated link than to drop the packet.
     let any_unconstrained = conns.iter().any(|c| {
-        !c.is_timed_out(current_time_ms)
+        // Must be connected: a disconnected link with a schedulable phase
+        // (REG_ERR limbo) scores -1 and is never picked, so it cannot be the
+        // alternative that justifies skipping a capped or gated link.
+        c.connected
+            && !c.is_timed_out(current_time_ms)
             && c.is_schedulable()
             && !c.weak
             && !c.loss_degraded
